@@ -1099,7 +1099,11 @@ func runC11(o *out, thorough bool, r *rng, _ []string) map[string]interface{} {
 	moreClientScenarios(o, r)
 	setRTORaceScenario(o, r, 10)
 	// schedule sweep: one transaction, clock stepped to just before / at / just after each deadline
-	for _, rto := range []int{7, 100, 1000, 3000000000, 20000000000} { // up to 20 s: the last deadline lies minutes after Start
+	rtos := []int{7, 100, 1000, 3000000000, 20000000000} // up to 20 s: the last deadline lies minutes after Start
+	for _, v := range litIntsIn(1000000, 1<<50, 4) {
+		rtos = append(rtos, v/40, v/8, v) // durations of the library's source: deadlines on both sides of them
+	}
+	for _, rto := range rtos {
 		for _, maxA := range []int{7, 0} {
 			for _, size := range []int{20, 2048, 2052, 3024} {
 				fs := []string{fNums(rto, maxA, 1, 0), withBytes([]int{1, 1, 1}, stunMsg(r, 1, size))}
@@ -1175,7 +1179,11 @@ func runC12(o *out, thorough bool, r *rng, _ []string) map[string]interface{} {
 	}
 	// a long run of datagrams that do not decode (more than any "too many errors" threshold one might invent),
 	// then the response: it still reaches its transaction
-	for _, run := range []int{63, 64, 65, 200, 1100} {
+	runs := []int{63, 64, 65, 200, 1100}
+	for _, n := range litIntsIn(8, 3000, 8) {
+		runs = append(runs, n-1, n, n+1) // numbers of the library's source that could be a limit on consecutive failures
+	}
+	for _, run := range runs {
 		fs := []string{fNums(1000, 7, 1, 9), withBytes([]int{1, 5, 2}, stunMsg(r, 5, 20))}
 		for k := 0; k < run; k++ {
 			switch k % 3 {
@@ -2001,7 +2009,11 @@ func moreClientScenarios(o *out, r *rng) {
 	}
 	// (6) many transactions in flight when the client is closed: each handler runs exactly once by the time
 	// Close has returned, and none afterwards
-	for i, k := range []int{1, 50, 99, 100, 101, 130, 257, 1000} {
+	inflight := []int{1, 50, 99, 100, 101, 130, 257, 1000}
+	for _, n := range litIntsIn(8, 3000, 6) {
+		inflight = append(inflight, n-1, n+1)
+	}
+	for i, k := range inflight {
 		e := mk(false)
 		if e == nil {
 			continue
